@@ -147,7 +147,18 @@ static std::string includeSplit(const std::vector<std::string>& kwTexts, const s
     fs::create_directories(dir + "/sub/deep");
     std::string root;
     bool usePaths = rng.chance(0.3);
-    if (usePaths) { root += "PATHS\n 'ALIAS' '" + dir + "/sub' /\n/\n"; rs.hit("include-paths-alias"); }
+    // alias names use every character class the parser documents for them: letters of both cases, digits, '-' and '_'
+    static const char* ALIASES[] = {"ALIAS", "INC_DIR", "inc-dir2", "A_b-3", "X9", "my_include_files_2024"};
+    const std::string alias = ALIASES[rng.below(6)];
+    // a second, shorter alias that is a prefix of the first up to a separator must not be picked up instead
+    const std::string decoy = alias.find_first_of("_-") != std::string::npos ? alias.substr(0, alias.find_first_of("_-")) : std::string();
+    if (usePaths) {
+        root += "PATHS\n '" + alias + "' '" + dir + "/sub' /\n";
+        if (!decoy.empty() && rng.chance(0.5)) root += " '" + decoy + "' '" + dir + "/nowhere' /\n";
+        root += "/\n";
+        rs.hit("include-paths-alias");
+        rs.hit(alias.find('_') != std::string::npos ? "include-alias-name-with-underscore" : alias.find('-') != std::string::npos ? "include-alias-name-with-hyphen" : "include-alias-name-alnum");
+    }
     int nfile = 0;
     std::function<std::string(size_t, size_t, int)> emit = [&](size_t a, size_t b, int depth) -> std::string {
         // text for keywords [a,b): either inline or through an include file
@@ -164,7 +175,7 @@ static std::string includeSplit(const std::vector<std::string>& kwTexts, const s
             if (where == 0) { path = dir + "/" + fname; ref = fname; rs.hit("include-relative"); }
             else if (where == 1) { path = dir + "/sub/deep/" + fname; ref = "sub/deep/" + fname; rs.hit("include-relative-subdir"); }
             else if (where == 2) { path = dir + "/sub/" + fname; ref = path; rs.hit("include-absolute"); }
-            else { path = dir + "/sub/" + fname; ref = "$ALIAS/" + fname; rs.hit("include-alias"); }
+            else { path = dir + "/sub/" + fname; ref = "$" + alias + "/" + fname; rs.hit("include-alias"); }
             if (rng.chance(0.3)) { body += "\nENDINC\n\nTHIS TEXT IS NEVER READ 'x /\n"; rs.hit("endinc"); }
             vh::write_file(path, body);
             out += std::string(rng.chance(0.5) ? "INCLUDE\n" : "include  -- c\n") + "  '" + ref + "' /" + (rng.chance(0.3) ? " text" : "") + "\n";
